@@ -35,7 +35,7 @@ func (c06) Assumptions() []string {
 
 func (c06) Phases(env run.Env) []run.Phase {
 	if env.Thorough {
-		return []run.Phase{{Name: "adjacency", N: 256 * 4}, {Name: "streams", N: 60000}, {Name: "soak", N: 1500}}
+		return []run.Phase{{Name: "adjacency", N: 256 * 16}, {Name: "streams", N: 700000}, {Name: "soak", N: 12000}}
 	}
 	return []run.Phase{{Name: "adjacency", N: 256}, {Name: "streams", N: 3000}, {Name: "soak", N: 96}}
 }
